@@ -13,6 +13,15 @@
 //   - detect_fold (detect_test.go): resource.Detect / resource.New over
 //     generated lists of fake detectors must equal the left fold of the merge
 //     model over the detectors whose resource is to be kept.
+//   - default_resource (default_test.go) and default_first_use
+//     (default_first_test.go): resource.Default() observed in a fresh child
+//     process per generated environment; the latter under every kind of
+//     malformed list element (partial detector failure on the FIRST call),
+//     concurrent first callers, compared with the case's model and with the
+//     public composition New(WithFromEnv(), WithTelemetrySDK()).
+//   - builtin_fold (builtin_test.go): the library's builtin detector options
+//     between WithAttributes neighbours / WithSchemaURL must equal the fold of
+//     the single-option results.
 //   - FuzzEnvAttrs (fuzz_test.go): native fuzzing of the environment string.
 //
 // Schema URLs (schema_test.go) are opaque strings for every oracle: "common"
